@@ -632,7 +632,9 @@ func (gw *GlobalWindow) getKeyAndValues(data map[string]any) (string, map[string
 	values := make(map[string]any, len(gw.groupByKeys))
 	for _, k := range gw.groupByKeys {
 		var val any
-		if fieldpath.IsNestedField(k) {
+		// A computed key (scalar-function expression such as floor(v*0.1)) is injected into
+		// the row under its own text and is never a path, whatever dots it contains.
+		if fieldpath.IsNestedField(k) && !strings.Contains(k, "(") {
 			val, _ = fieldpath.GetNestedField(data, k)
 		} else if v.IsValid() && v.Kind() == reflect.Map && v.Type().Key().Kind() == reflect.String {
 			if mv := v.MapIndex(reflect.ValueOf(k)); mv.IsValid() {
